@@ -1474,6 +1474,10 @@ class Interp:
                     if isinstance(d.fget, types.FunctionType) and type(d) is property:
                         if self.in_prefix(d.fget) and self.interpretable(d.fget):
                             return self.call(d.fget, (obj,), {})
+                        if isinstance(obj, tuple) and has_sym(obj) and self.interpretable(d.fget) \
+                                and (d.fget.__module__ or "").split(".")[0] not in self.NEVER:
+                            # properties of stdlib result tuples (urllib.parse.SplitResult) over symbolic fields
+                            return self.call(d.fget, (obj,), {})
                         return getattr(obj, name)
                     g = type(d).__dict__.get("__get__")
                     if isinstance(g, types.FunctionType) and self.in_prefix(g) and self.interpretable(g):
